@@ -19,7 +19,7 @@ const L2: &[&str] = &["a", "1", "-1", "1.5", "'x'", "null", "t.a", "`my col`"];
 const LONG: &str = "a_very_long_identifier_number_one";
 
 /// leaves of the compositional family
-const CLEAVES: &[&str] = &["a", "1", "-a", "-1", "'x'", "a + b", "f a", "a.b"];
+const CLEAVES: &[&str] = &["a", "1", "-a", "-1", "'x'", "a + b", "f a", "a.b", "$1", "y = a"];
 /// one-hole contexts; the first CONTEXTS_CORE are the ones used at the outer level of quick depth-2 nestings
 const CONTEXTS_CORE: usize = 14;
 const CONTEXTS: &[&str] = &[
@@ -293,6 +293,56 @@ const STATEMENTS: &[&str] = &[
     "from t | derive x = s\"a \\\" b\" | derive y = f\"a \\\" {b}\"",
     "from t | derive x = r\"a\\b\" | derive y = 'a\\\\b'",
     "from t | derive x = \"\\u{48}\\x41\"",
+    // parameters: defaults that need parentheses, typed named parameters, parameter names needing backticks
+    "let g = func x y:(f 1) -> x + y",
+    "let g = func x y:(a + b) -> x + y",
+    "let g = func x y:-1 -> x + y",
+    "let g = func x y:(z -> z) -> x",
+    "let g = func x y:{a = 1} -> x",
+    "let g = func x y:[1, 2] -> x",
+    "let g = func x y:(1..2) -> x",
+    "let g = func x y:null -> x ?? y",
+    "let f = func a<int>:5 b -> a + b",
+    "let f = func a<int> b<text>:'x' -> <bool> a == b",
+    "let f = func `my p` `q r`:1 -> `my p` + `q r`",
+    "from t | derive z = (f `a b`:1 b)",
+    "from t | derive z = (f `select`:1 b)",
+    // parameters ($n) as operands where the next token could be read as part of them
+    "from t | take ($1)..5",
+    "from t | take 1..($2)",
+    "from t | derive z = ($1).a",
+    "from t | derive z = $1 + $2",
+    // an alias inside an expression
+    "from t | derive y = (x = a) + b",
+    "from t | derive y = f (x = a)",
+    "from t | select {y = (x = a)}",
+    // format specifications in interpolations
+    "from t | derive z = f\"{a:>10}\"",
+    "from t | derive z = s\"{a:x}\"",
+    "from t | derive z = f\"{a + b:.2}\"",
+    // names with characters that are only sometimes allowed bare
+    "let `c$d` = 1",
+    "from t | derive `a$b` = 1",
+    "from t | derive {`$a` = 1, `a-b` = 2, `1a` = 3, `a.b` = 4}",
+    "from `a$b`",
+    // tuple types with an unpacked rest, function types, array of tuples
+    "type t = {a = int, ..b}",
+    "type t = {..b}",
+    "type t = func int text -> bool",
+    "type t = [{a = int}]",
+    "type t = {int, text}",
+    // statements that are an aliased pipeline / an expression
+    "x = (from a | select b)",
+    "from t | select b\ninto `my x`",
+    "let x = (from t)\nlet y = (from x | take 1)\nfrom y",
+    // unary operators next to each other and next to ranges
+    "from t | derive z = - -a",
+    "from t | derive z = -(-a)",
+    "from t | derive z = !(!a)",
+    "from t | derive z = (-a)..(-b)",
+    "from t | filter (a | in (-5)..(-1))",
+    // case with nested case and a function in an arm
+    "from t | derive z = case [a => case [b => 1, true => 2], true => (x -> x)]",
 ];
 
 #[derive(Debug)]
